@@ -99,6 +99,9 @@ fn agrees<T>(r: &Result<T, Error>, want: Want) -> (bool, bool) {
 
 macro_rules! l5_null {
 	($name:ident, $n:expr) => {
+		l5_null!($name, $n, false);
+	};
+	($name:ident, $n:expr, $with:expr) => {
 		#[cfg(kani)]
 		#[kani::proof]
 		#[kani::unwind(7)]
@@ -107,13 +110,25 @@ macro_rules! l5_null {
 			let backing: [u8; 6] = [kani::any(), kani::any(), kani::any(), kani::any(), kani::any(), kani::any()];
 			let b = &backing[..N];
 			let want = ref_literal_bytes(b, b"null");
-			let r = <() as Parse>::parse_slice(b);
+			// both byte-slice entry points: `parse_slice` and `parse_slice_with` under
+			// every option value (the options only concern \u escapes, absent here)
+			let r = if $with {
+				<() as Parse>::parse_slice_with(
+					b,
+					json_syntax::parse::Options {
+						accept_truncated_surrogate_pair: kani::any(),
+						accept_invalid_codepoints: kani::any(),
+					},
+				)
+			} else {
+				<() as Parse>::parse_slice(b)
+			};
 			let (verdict, detail) = agrees(&r, want);
 			assert!(verdict, "C01:byte-slice-input-accepted-iff-well-formed-utf8-and-valid");
 			assert!(detail, "C07:ill-formed-utf8-reported-at-first-ill-formed-sequence-unless-syntax-error-before");
 			kani::cover!(N < 4 || want == Want::Ok);
 			kani::cover!(matches!(want, Want::InvalidUtf8(p) if p + 1 == N.min(4)));
-			kani::cover!(N < 2 || matches!(want, Want::Unexpected(p, Some(c)) if p > 0 && c > 0x7F));
+			kani::cover!(N < 3 || matches!(want, Want::Unexpected(p, Some(c)) if p > 0 && c > 0x7F));
 			core::mem::forget(r);
 		}
 	};
@@ -124,6 +139,193 @@ l5_null!(l5_null_slice_n2, 2);
 l5_null!(l5_null_slice_n3, 3);
 l5_null!(l5_null_slice_n4, 4);
 l5_null!(l5_null_slice_n5, 5);
+l5_null!(l5_null_slice_with_n2, 2, true);
+l5_null!(l5_null_slice_with_n3, 3, true);
+l5_null!(l5_null_slice_with_n4, 4, true);
+l5_null!(l5_null_slice_with_n5, 5, true);
+
+/// Every non-slice entry point of the `Parse` trait (string, character
+/// iterators with and without errors, decoded-character iterators, each with
+/// and without explicit options) gives the verdict, error and code map of the
+/// reference on the same ASCII text. The byte-slice entry points are the
+/// l5_* harnesses above. `FromStr for Value` goes through whole-document
+/// parsing and is outside the reach of this technique.
+macro_rules! ep_null {
+	($name:ident, $n:expr, $which:expr) => {
+		#[cfg(kani)]
+		#[kani::proof]
+		#[kani::unwind(7)]
+		fn $name() {
+			use decoded_char::DecodedChar;
+			use json_syntax::parse::Options;
+			const N: usize = $n;
+			let backing: [u8; 6] = [kani::any(), kani::any(), kani::any(), kani::any(), kani::any(), kani::any()];
+			kani::assume(backing[0] < 0x80 && backing[1] < 0x80 && backing[2] < 0x80 && backing[3] < 0x80 && backing[4] < 0x80 && backing[5] < 0x80);
+			let b = &backing[..N];
+			let want = ref_literal_bytes(b, b"null");
+			let o = Options {
+				accept_truncated_surrogate_pair: kani::any(),
+				accept_invalid_codepoints: kani::any(),
+			};
+			// ASCII only: valid UTF-8 by construction
+			let s = unsafe { core::str::from_utf8_unchecked(b) };
+			let chars = || b.iter().map(|x| *x as char);
+			let r: Result<((), json_syntax::CodeMap), Error> = match $which {
+				0 => <() as Parse>::parse_str(s),
+				1 => <() as Parse>::parse_str_with(s, o),
+				2 => <() as Parse>::parse_infallible_utf8(chars()),
+				3 => <() as Parse>::parse_utf8_infallible_with(chars(), o),
+				4 => <() as Parse>::parse_utf8(chars().map(Ok::<char, core::convert::Infallible>)),
+				5 => <() as Parse>::parse_utf8_with(chars().map(Ok::<char, core::convert::Infallible>), o),
+				6 => <() as Parse>::parse_infallible(chars().map(DecodedChar::from_utf8)),
+				7 => <() as Parse>::parse_infallible_with(chars().map(DecodedChar::from_utf8), o),
+				8 => <() as Parse>::parse(chars().map(|c| Ok::<DecodedChar, core::convert::Infallible>(DecodedChar::from_utf8(c)))),
+				_ => <() as Parse>::parse_with(chars().map(|c| Ok::<DecodedChar, core::convert::Infallible>(DecodedChar::from_utf8(c))), o),
+			};
+			let (verdict, detail) = agrees(&r, want);
+			assert!(verdict, "C01:all-entry-points-give-the-same-verdict");
+			assert!(detail, "C07:all-entry-points-report-the-same-error");
+			if let Ok(((), cm)) = &r {
+				let e = cm.as_slice();
+				assert!(e.len() == 1 && e[0].span.start() == 0 && e[0].span.end() == 4 && e[0].volume == 1, "C05:scalar-span-and-volume");
+			}
+			kani::cover!(N < 4 || want == Want::Ok);
+			kani::cover!(N < 1 || matches!(want, Want::Unexpected(p, Some(_)) if p + 1 == N.min(4)));
+			core::mem::forget(r);
+		}
+	};
+}
+
+ep_null!(ep_null_parse_str, 5, 0);
+ep_null!(ep_null_parse_str_with, 5, 1);
+ep_null!(ep_null_parse_infallible_utf8, 5, 2);
+ep_null!(ep_null_parse_utf8_infallible_with, 5, 3);
+ep_null!(ep_null_parse_utf8, 5, 4);
+ep_null!(ep_null_parse_utf8_with, 5, 5);
+ep_null!(ep_null_parse_infallible, 5, 6);
+ep_null!(ep_null_parse_infallible_with, 5, 7);
+ep_null!(ep_null_parse, 5, 8);
+ep_null!(ep_null_parse_with, 5, 9);
+
+/// The leniency options reach the string unit through every entry point the
+/// same way: the entry points WITHOUT an options argument are strict, the
+/// `_with` ones obey exactly the options they are given. Input: `"\uXXXX"`
+/// with all four hex digit values (and their case) symbolic, i.e. every code
+/// unit: ordinary scalar, high surrogate, low surrogate.
+macro_rules! ep_string {
+	($name:ident, $which:expr) => {
+		#[cfg(kani)]
+		#[kani::proof]
+		#[kani::unwind(10)]
+		#[kani::stub(smallvec::SmallVec::try_grow, crate::util::no_grow)]
+		fn $name() {
+			use decoded_char::DecodedChar;
+			use json_syntax::parse::Options;
+			type S = json_syntax::String;
+			let d: [u8; 4] = [kani::any(), kani::any(), kani::any(), kani::any()];
+			kani::assume(d[0] < 16 && d[1] < 16 && d[2] < 16 && d[3] < 16);
+			let upper: [bool; 4] = [kani::any(), kani::any(), kani::any(), kani::any()];
+			let hex = |k: usize| -> u8 {
+				if d[k] < 10 {
+					b'0' + d[k]
+				} else if upper[k] {
+					b'A' + (d[k] - 10)
+				} else {
+					b'a' + (d[k] - 10)
+				}
+			};
+			let b: [u8; 8] = [b'"', b'\\', b'u', hex(0), hex(1), hex(2), hex(3), b'"'];
+			let cu = ((d[0] as u32) << 12) | ((d[1] as u32) << 8) | ((d[2] as u32) << 4) | d[3] as u32;
+			let given = Options {
+				accept_truncated_surrogate_pair: kani::any(),
+				accept_invalid_codepoints: kani::any(),
+			};
+			let with = $which % 2 == 1;
+			let o = if with { given } else { Options::strict() };
+			let s = unsafe { core::str::from_utf8_unchecked(&b) };
+			let chars = || b.iter().map(|x| *x as char);
+			let r: Result<(S, json_syntax::CodeMap), Error> = match $which {
+				0 => <S as Parse>::parse_str(s),
+				1 => <S as Parse>::parse_str_with(s, given),
+				2 => <S as Parse>::parse_infallible_utf8(chars()),
+				3 => <S as Parse>::parse_utf8_infallible_with(chars(), given),
+				4 => <S as Parse>::parse_utf8(chars().map(Ok::<char, core::convert::Infallible>)),
+				5 => <S as Parse>::parse_utf8_with(chars().map(Ok::<char, core::convert::Infallible>), given),
+				6 => <S as Parse>::parse_infallible(chars().map(DecodedChar::from_utf8)),
+				7 => <S as Parse>::parse_infallible_with(chars().map(DecodedChar::from_utf8), given),
+				8 => <S as Parse>::parse(chars().map(|c| Ok::<DecodedChar, core::convert::Infallible>(DecodedChar::from_utf8(c)))),
+				_ => <S as Parse>::parse_with(chars().map(|c| Ok::<DecodedChar, core::convert::Infallible>(DecodedChar::from_utf8(c))), given),
+			};
+			let high = (0xD800..=0xDBFF).contains(&cu);
+			let low = (0xDC00..=0xDFFF).contains(&cu);
+			let want: Option<char> = if high {
+				if o.accept_truncated_surrogate_pair {
+					Some('\u{fffd}')
+				} else {
+					None
+				}
+			} else if low {
+				if o.accept_invalid_codepoints {
+					Some('\u{fffd}')
+				} else {
+					None
+				}
+			} else {
+				char::from_u32(cu)
+			};
+			match &r {
+				Ok((got, _)) => {
+					let label_ok = want.is_some();
+					if with {
+						assert!(label_ok, "C12:lenient-accepts-only-the-documented-relaxations");
+					} else {
+						assert!(label_ok, "C12:entry-points-without-options-are-strict");
+					}
+					let mut buf = [0u8; 4];
+					let w = want.unwrap_or('\0').encode_utf8(&mut buf).as_bytes();
+					let g = got.as_bytes();
+					let mut same = g.len() == w.len();
+					if g.len() > 0 && w.len() > 0 && g[0] != w[0] {
+						same = false;
+					}
+					if g.len() > 1 && w.len() > 1 && g[1] != w[1] {
+						same = false;
+					}
+					if g.len() > 2 && w.len() > 2 && g[2] != w[2] {
+						same = false;
+					}
+					if g.len() > 3 && w.len() > 3 && g[3] != w[3] {
+						same = false;
+					}
+					assert!(same, "C02:string-decoded-per-rfc8259-section-7");
+				}
+				Err(e) => {
+					assert!(want.is_none(), "C12:lenient-accepts-every-documented-relaxation");
+					if high {
+						assert!(matches!(e, Error::MissingLowSurrogate(_, h) if *h as u32 == cu), "C07:surrogate-error-carries-the-code-units");
+					} else {
+						assert!(matches!(e, Error::InvalidUnicodeCodePoint(_, c) if *c == cu), "C07:surrogate-error-carries-the-code-units");
+					}
+				}
+			}
+			kani::cover!(high && want.is_some());
+			kani::cover!(low && want.is_none());
+			kani::cover!(!high && !low && cu > 0x7FF);
+			core::mem::forget(r);
+		}
+	};
+}
+
+ep_string!(ep_string_parse_str, 0);
+ep_string!(ep_string_parse_str_with, 1);
+ep_string!(ep_string_parse_infallible_utf8, 2);
+ep_string!(ep_string_parse_utf8_infallible_with, 3);
+ep_string!(ep_string_parse_utf8, 4);
+ep_string!(ep_string_parse_utf8_with, 5);
+ep_string!(ep_string_parse_infallible, 6);
+ep_string!(ep_string_parse_infallible_with, 7);
+ep_string!(ep_string_parse, 8);
+ep_string!(ep_string_parse_with, 9);
 
 #[cfg(test)]
 mod tests {
